@@ -25,20 +25,30 @@ def main():
         for m in cat:
             if only and only not in m['name']:
                 continue
-            path = os.path.join(repo, m['file'])
-            orig = open(path).read()
-            if orig.count(m['old']) < 1:
+            edits = m.get('edits') or [m]
+            saved = {}
+            stale = False
+            for e in edits:
+                path = os.path.join(repo, e['file'])
+                cur = open(path).read()
+                saved.setdefault(path, cur)
+                if cur.count(e['old']) < 1:
+                    stale = True
+                    break
+                open(path, 'w').write(cur.replace(e['old'], e['new'], 1))
+            if stale:
+                for path, orig in saved.items():
+                    open(path, 'w').write(orig)
                 print('MUTANT %s: pattern not found (stale catalogue)' % m['name'])
                 res.append((m['name'], 'stale'))
                 continue
-            new = orig.replace(m['old'], m['new'], 1)
-            open(path, 'w').write(new)
             env = dict(os.environ, VERIF_REPO=repo, VERIF_OUT=os.path.join(base, 'out'))
             try:
                 p = subprocess.run([os.path.join(VERIF, 'run_check.py'), pid, '--tier', tier],
                                    env=env, stdout=subprocess.PIPE, stderr=subprocess.STDOUT, text=True)
             finally:
-                open(path, 'w').write(orig)
+                for path, orig in saved.items():
+                    open(path, 'w').write(orig)
             last = [l for l in p.stdout.splitlines() if l.startswith(('violation bucket', 'HARNESS'))][:3]
             status = {0: 'SURVIVED', 1: 'caught', 2: 'harness-error'}.get(p.returncode, 'rc%d' % p.returncode)
             print('MUTANT %-40s %s  %s' % (m['name'], status, ' | '.join(x[:160] for x in last)))
